@@ -71,10 +71,12 @@ func (fsEngine) Gen(r *Rand, tier string) any {
 	c := &FsCase{}
 	c.MemFS = r.Chance(1, 6)
 	add := func(p, k, t string) { c.Nodes = append(c.Nodes, FsNode{Path: p, Kind: k, Target: t}) }
-	for _, d := range []string{"root", "root/a", "root/a/b", "outside", "outside/o", "root-x"} {
+	for _, d := range []string{"root", "root/a", "root/a/b", "outside", "outside/o", "root-x", "ROOT", "ROOT/A"} {
 		add(d, "dir", "")
 	}
-	for _, f := range []string{"root/f0.lisp", "root/a/f1.lisp", "root/a/b/f2.lisp", "outside/s0.lisp", "outside/o/s1.lisp", "root-x/x0.lisp", "root/a/s0.lisp"} {
+	// ROOT/... differs from root/... only by letter case (a different directory on a case-sensitive file system)
+	for _, f := range []string{"root/f0.lisp", "root/a/f1.lisp", "root/a/b/f2.lisp", "outside/s0.lisp", "outside/o/s1.lisp", "root-x/x0.lisp", "root/a/s0.lisp",
+		"ROOT/f0.lisp", "ROOT/A/f1.lisp", "ROOT/u0.lisp"} {
 		add(f, "file", "")
 	}
 	if !c.MemFS {
@@ -130,7 +132,11 @@ func (fsEngine) Gen(r *Rand, tier string) any {
 		}
 		if r.Chance(1, 2) && len(links) > 0 {
 			adv := &FsAdv{}
-			switch r.Pick([]int{6, 2, 1}) {
+			switch r.Pick([]int{6, 2, 1, 3}) {
+			case 3:
+				// a link to an outside file appears, between resolution and read, under a name that did not exist
+				adv.Kind = "plant-link"
+				adv.NewTarget = PickStr(r, []string{"@/outside/s0.lisp", "@/root-x/x0.lisp", "@/outside/o/s1.lisp"})
 			case 0:
 				adv.Kind = "repoint"
 				adv.Link = PickStr(r, links)
@@ -307,6 +313,7 @@ func (c *FsCase) locations(d *fsDisk) []fsLoad {
 			}
 		}
 	}
+	names = append(names, "ghost.lisp", "ghost")
 	sort.Strings(names)
 	alpha := append([]string{".", ".."}, names...)
 	loaders := []string{"", "root/f0.lisp", "root/a/f1.lisp", "root/a/b/f2.lisp"}
@@ -417,6 +424,14 @@ func (fsEngine) Run(ci any, st *Stats) *Violation {
 			return
 		}
 		switch c.Adv.Kind {
+		case "plant-link":
+			if _, err := os.Lstat(detail); err == nil {
+				return // the name exists: nothing to plant
+			}
+			if os.Symlink(d.abs(c.Adv.NewTarget), detail) == nil {
+				advFired = true
+				undo = append(undo, func() { _ = os.Remove(detail) })
+			}
 		case "repoint":
 			full := filepath.Join(d.base, c.Adv.Link)
 			old, err := os.Readlink(full)
@@ -623,6 +638,9 @@ func (fsEngine) Run(ci any, st *Stats) *Violation {
 		}
 		if strings.Contains(ld.loc, "root-x") {
 			st.Inc("reach_sibling_prefix_directory")
+		}
+		if strings.Contains(ld.loc, "ROOT") {
+			st.Inc("reach_case_variant_of_root")
 		}
 		h = h.Str(got)
 		if lerr != nil {
